@@ -14,6 +14,10 @@
 //!                                                              per activation: the observation that preceded its first
 //!                                                              one, i.e. the instruction of the parent activation that
 //!                                                              started it (null: the render's own activation)
+//!            "after": [null | [pc, stack, frames, captures, auto_escapes] ..]}
+//!                                                              per activation: the first observation of its parent
+//!                                                              after it ended, i.e. the state the call returned to
+//!                                                              (null: the parent never ran again)
 //! Each request runs on a fresh thread under catch_unwind with a watchdog, like `prog`.
 use std::cell::RefCell;
 use std::collections::HashMap;
@@ -60,6 +64,7 @@ struct Rec {
     act_index: HashMap<usize, usize>,
     acts: Vec<Vec<(usize, Vec<[usize; 5]>)>>,
     born: Vec<Option<[usize; 7]>>,
+    after: Vec<Option<[usize; 5]>>,
     last: Option<[usize; 7]>,
     total: usize,
     truncated: bool,
@@ -90,7 +95,7 @@ fn run(req: &J) -> J {
     let ctxv = Value::from(minijinja::value::Serde(req.get("ctx").cloned().unwrap_or(J::Null)));
     let tmpl = match env.get_template(main) {
         Ok(t) => t,
-        Err(e) => return json!({"hook": true, "render": {"err": mjverif::err_code(e.kind())}, "streams": [], "acts": [], "born": [], "truncated": false}),
+        Err(e) => return json!({"hook": true, "render": {"err": mjverif::err_code(e.kind())}, "streams": [], "acts": [], "born": [], "after": [], "truncated": false}),
     };
     let rec: Rc<RefCell<Rec>> = Rc::new(RefCell::new(Rec::default()));
     let r2 = rec.clone();
@@ -121,9 +126,29 @@ fn run(req: &J) -> J {
                 r.act_index.insert(act, i);
                 let b = r.last;
                 r.born.push(b);
+                r.after.push(None);
                 i
             }
         };
+        // the activation observed last (and what it was nested in) has ended when an older activation runs
+        // again: this observation is what the child of `ai` on that chain returned to
+        if let Some(l) = r.last {
+            if l[0] != ai && ai + 1 < r.acts.len() && l[0] > ai {
+                let mut c = l[0];
+                loop {
+                    match r.born[c] {
+                        Some(b) if b[0] == ai => {
+                            if r.after[c].is_none() {
+                                r.after[c] = Some([pc as usize, stk, frames, caps, aes]);
+                            }
+                            break;
+                        }
+                        Some(b) if b[0] < c => c = b[0],
+                        _ => break,
+                    }
+                }
+            }
+        }
         let segs = &mut r.acts[ai];
         if segs.last().map(|s| s.0) != Some(si) {
             segs.push((si, vec![]));
@@ -157,7 +182,7 @@ fn run(req: &J) -> J {
         .iter()
         .map(|segs| J::Array(segs.iter().map(|(si, obs)| json!([si, obs])).collect()))
         .collect();
-    json!({"hook": true, "render": render, "streams": rec.streams, "acts": acts, "born": rec.born, "truncated": rec.truncated})
+    json!({"hook": true, "render": render, "streams": rec.streams, "acts": acts, "born": rec.born, "after": rec.after, "truncated": rec.truncated})
 }
 
 fn main() {
